@@ -7,7 +7,7 @@
    conditions (the modified matrix factorises, 1 + v.z <> 0).
    PARTIAL: floating-point backward stability is covered by the exact-rational correspondence (K-solve), not by a theorem. *)
 From Coq Require Import List ZArith Bool Reals.
-From GMGP Require Import Scalar ScalarR TridiagDefs TridiagProofs TridiagCyclic TridiagSPD.
+From GMGP Require Import Scalar ScalarR TridiagDefs TridiagProofs TridiagCyclic TridiagSPD TridiagCyclicSPD.
 Import ListNotations.
 Local Open Scope R_scope.
 
@@ -52,6 +52,25 @@ Theorem C14_spd_solve_correct : forall d ds ss b0 bs,
   @matvec_tri Rsc (d :: ds) ss (@solve_tri Rsc (d :: ds) ss (b0 :: bs)) = b0 :: bs.
 Proof. exact spd_solve_correct. Qed.
 
+(* CYCLIC systems (the circle lines of the smoothers): every symmetric positive definite cyclic tridiagonal matrix, of every dimension
+   n >= 2, dominant or not -- x^T A x is taken from the dense cyclic reference product -- makes the matrix B = A - u v^T that the code
+   factorises (gamma = -a_00) positive definite, so its pivots are positive, the Sherman-Morrison denominator cannot vanish, and the
+   solve returns the exact solution: both premises of C14_cyclic_solve_correct are consequences of definiteness *)
+Theorem C14_qcyc_is_xAx : forall d0 ds ss c x0 xs, ds <> [] -> length ss = length ds -> length xs = length ds ->
+  qcyc d0 ds ss c x0 xs = dotR (x0 :: xs) (@matvec_cyc Rsc (d0 :: ds) ss c (x0 :: xs)).
+Proof. exact qcyc_is_xAx. Qed.
+Theorem C14_cyclic_modified_matrix_is_spd : forall d0 ds ss c, ds <> [] -> length ss = length ds -> spd_cyc d0 ds ss c ->
+  match @cyc_modified_diag Rsc (d0 :: ds) c with [] => False | e :: es => spd e es ss /\ pivots_pos e es ss end.
+Proof. exact spd_cyc_modified_spd_and_pivots. Qed.
+Theorem C14_cyclic_denominator_nonzero : forall d0 ds ss c, ds <> [] -> length ss = length ds -> spd_cyc d0 ds ss c ->
+  1 + (hd 0 (@solve_tri Rsc (@cyc_modified_diag Rsc (d0 :: ds) c) ss (@cyc_u Rsc (length (d0 :: ds)) (- d0) c))
+       + c / - d0 * last (@solve_tri Rsc (@cyc_modified_diag Rsc (d0 :: ds) c) ss (@cyc_u Rsc (length (d0 :: ds)) (- d0) c)) 0) <> 0.
+Proof. exact spd_cyc_denominator_nonzero. Qed.
+Theorem C14_spd_cyclic_solve_correct : forall d0 ds ss c b0 bs,
+  ds <> [] -> length ss = length ds -> length bs = length ds -> spd_cyc d0 ds ss c ->
+  @matvec_cyc Rsc (d0 :: ds) ss c (@solve_cyc Rsc (d0 :: ds) ss c (b0 :: bs)) = b0 :: bs.
+Proof. exact spd_cyclic_solve_correct. Qed.
+
 (* repeated solves with the same object and right-hand side return identical results (bit for bit:
    no law of arithmetic is used), the first solve included *)
 Theorem C14_repeated_solves_identical : forall (S : Sc) (t : @tri S) (b : list S),
@@ -66,3 +85,4 @@ Print Assumptions C14_pivots_positive_of_dominant.
 Print Assumptions C14_repeated_solves_identical.
 Print Assumptions C14_cyclic_solve_correct.
 Print Assumptions C14_spd_solve_correct.
+Print Assumptions C14_spd_cyclic_solve_correct.
